@@ -76,6 +76,7 @@ type c17cfg struct {
 	scripts  []pscript
 	inflight []string
 	to       int
+	slowOld  bool // the deployed target answers its probes slower than the probe interval
 }
 
 func (c c17cfg) String() string {
@@ -83,7 +84,7 @@ func (c c17cfg) String() string {
 	for _, s := range c.scripts {
 		n = append(n, s.name)
 	}
-	return fmt.Sprintf("cmd=%s pre=%s targets=[%s] inflight=[%s] timeouts=%d", c.cmd, c.pre, strings.Join(n, ","), strings.Join(c.inflight, ","), c.to)
+	return fmt.Sprintf("cmd=%s pre=%s targets=[%s] inflight=[%s] timeouts=%d slowOld=%v", c.cmd, c.pre, strings.Join(n, ","), strings.Join(c.inflight, ","), c.to, c.slowOld)
 }
 
 var c17InflightDelay = map[string]time.Duration{
@@ -133,6 +134,23 @@ func c17Configs(tier string) []c17cfg {
 			}
 		}
 	}
+	// probes slower than the probe interval (a tick is always buffered when a probe returns):
+	// commands that stop probing must do so even when a probe is outstanding
+	var slowS, neverSlow pscript
+	for _, s := range scripts {
+		if s.name == "1xslow-then-ok" {
+			slowS = s
+		}
+		if s.name == "never-slow" {
+			neverSlow = s
+		}
+	}
+	for _, x := range [][2]string{{"remove", "active"}, {"deploy", "active"}, {"pause", "active"}, {"list", "active"}} {
+		cfgs = append(cfgs, c17cfg{cmd: x[0], pre: x[1], scripts: []pscript{ok}, to: 2, slowOld: true})
+	}
+	cfgs = append(cfgs, c17cfg{cmd: "deploy", pre: "absent", scripts: []pscript{neverSlow}, to: 2})
+	cfgs = append(cfgs, c17cfg{cmd: "deploy", pre: "active", scripts: []pscript{ok, neverSlow}, to: 2})
+	cfgs = append(cfgs, c17cfg{cmd: "rollout", pre: "active", scripts: []pscript{slowS, neverSlow}, to: 2})
 	return cfgs
 }
 
@@ -168,7 +186,11 @@ func c17Scenario(c c17cfg) *Scenario {
 		for i, s := range c.scripts {
 			w.AddTarget(newNames[i], s.steps...)
 		}
-		w.AddTarget("oa:80")
+		if c.slowOld {
+			w.AddTarget("oa:80", pOK(), pSlow())
+		} else {
+			w.AddTarget("oa:80")
+		}
 		w.AddTarget("ra:80")
 		w.AddTarget("xa:80")
 		if c.pre != "absent" {
@@ -427,7 +449,16 @@ func c17Scenario(c c17cfg) *Scenario {
 			if c.cmd == "remove" && (n == "oa:80" || n == "ra:80") {
 				stillThere = false
 			}
-			if stillThere && cnt < 3 {
+			// one probe per interval, or per probe duration when probes are slower than the interval
+			per := to.I
+			if c.slowOld && n == "oa:80" && to.P > per {
+				per = to.P
+			}
+			minProbes := int((4*to.I+100*time.Millisecond)/per) - 1
+			if minProbes < 1 {
+				minProbes = 1
+			}
+			if stillThere && cnt < minProbes {
 				vs = append(vs, Violation{"C17", "probing-stopped-for-live-target", fmt.Sprintf("%s got only %d probes in the settle window after %s", n, cnt, cmd.Name)})
 			}
 		}
